@@ -503,6 +503,12 @@ def transferTo (st : Store) : Nat → Engine → Rel → Except Err Res
       | .same => return base
       | .new c => return .new c
 
+/-- `Engine.transfer(target, payload)` with an explicit payload (base class, i.e. an iteration engine as destination):
+`EngineError` when the target - after a there-and-back pair has been simplified away - already lives in the
+destination ("Cannot attach payload to transfer that will be simplified away"); otherwise as `transferTo`. -/
+def transferWithPayload (st : Store) (fuel : Nat) (dest : Engine) (t : Rel) : Except Err Res :=
+  if ((transferSimplify dest t).getD t).engine == dest then .error .engine else transferTo st fuel dest t
+
 /-- `relation.materialized(name)` = `relation.engine.materialize(relation, name)`. -/
 def materialize (st : Store) : Nat → Rel → String → Except Err Res
   | 0, _, _ => .error .fuel
@@ -648,6 +654,13 @@ def joinOn (st : Store) (t rhs : Rel) (pred : Pred) (common : Cols) (backtrack t
     -- `Join.partial`: `ColumnError` unless `min_columns <= fix.columns`
     if !(common.subset rhs.columns) then .error .column
     else applyOp st defaultFuel (.pj ⟨j, rhs, false⟩) t { backtrack := backtrack, transfer := transfer }
+
+/-- `Join(pred, min_columns=S, max_columns=S).apply(lhs, rhs)`: the binary operation applied directly (no
+`PartialJoin`, no options). -/
+def joinDirect (st : Store) (lhs rhs : Rel) (pred : Pred) (common : Cols) : Except Err BRes :=
+  match JoinOp.make pred common (some common) with
+  | .error e => .error e
+  | .ok j => binaryApply st defaultFuel (.join j) lhs rhs
 
 /-- `relation.chain(rhs)`. -/
 def chainWith (st : Store) (t rhs : Rel) : Except Err BRes :=
